@@ -22,7 +22,6 @@ PROPS = {
 }
 
 PROPS["C02"] = {
-    "ready": False,
     "corr": "Model.Median.filter vs signalo_filters::median::Median::filter",
     "rule": "Median<f64,N> on small integers (exact) and NaN: every complete history over {0,1,2}, {0,1,2,3} and {0,1,NaN,2} of the tier's length for N=1..6 (1..5 with NaN), outputs compared after every sample (so all prefixes are covered), plus seeded random long histories over small alphabets with runs, outliers and NaN for N up to 9 (16 thorough); cases are distinct spec lines; non-trivial = history longer than the window (evictions happen) AND a repeated value (ties), evaluated by Check/C02.v in Coq",
     "trusted": ["f64 on integers |x| <= 2^53 is exact, NaN is the only incomparable value (modelled as None with all comparisons false)",
@@ -32,13 +31,23 @@ PROPS["C02"] = {
     "level_note": "Trusted: Coq kernel/vm_compute; hand-written transliteration Model/Median.v (validated on explored cases only, exhaustive small scope); f64 on small integers exact.",
 }
 PROPS["C17"] = {
-    "ready": False,
     "corr": "Model.Median.acc_{min,median,max} vs signalo_filters::median::Median::{min,median,max}",
     "rule": "same generator as C02; the three accessors are read before the first sample and after every sample; non-trivial = history longer than the window AND a repeated value, evaluated by Check/C17.v in Coq",
     "trusted": PROPS["C03"]["trusted"][:0] + ["f64 on small integers exact; NaN histories are only compared with the model (the property speaks about ordered windows)"],
     "assumptions": ["N >= 1", "total order"],
     "level_text": "Theorems on top of the C02 invariant: min() and median() return the smallest and the lower median of the window and all three return nothing before the first sample, for every N>=1 and history; max() is proved to return the newest sample, which is the window maximum exactly when the newest sample is a maximum (known finding, refuted in general by a machine-checked witness).",
     "level_note": "Trusted: as C02. The max() clause is a known finding (KNOWN_FINDINGS.txt): violations inside the recorded class with exactly the recorded wrong value are reported as KNOWN-FINDING, anything else as VIOLATION.",
+}
+
+PROPS["C04"] = {
+    "corr": "Model.Bounds.step vs signalo_filters::bounds::{max::Max,min::Min,Bounds}::filter (outputs, clock and deque through IntoGuts)",
+    "profiles": ["release", "debug"],
+    "rule": "Max/Min/Bounds<i64,N>: all histories over {0,1,2} of the tier's length from a fresh filter for N=1..5, and from states injected through FromGuts (reached on the real code by every prefix over {0,1,2} of length <= N, then clock and timestamps shifted so that the clock is `shift` ticks before usize::MAX, shift in 0..N+1) every continuation over {0,1,2} long enough to pass the rebase and expire every entry (complete for N<=2, every 8th case for N=3 in the quick tier; complete N<=4 thorough), plus seeded random long runs; both release and debug (overflow-checked) builds; non-trivial = the run crosses the rebase AND is longer than the window, evaluated by Check/C04.v in Coq",
+    "trusted": ["model of circular_buffer::CircularBuffer::{push_back,pop_front,pop_back,front,back,iter_mut} as a bounded list",
+                "usize = 64-bit word (usize_max = 2^64-1 in the executed instances; theorems are for every word size maxu >= N+1)"],
+    "assumptions": ["1 <= N", "N + 1 <= usize::MAX", "total preorder on samples"],
+    "level_text": "Theorems for every word size, width, history length (so across arbitrarily many clock rebases) and totally preordered sample type: no checked operation fails (debug = release) and the output is an extremum of the last min(k,N) samples; also from every well-formed injected state (clock anywhere up to usize::MAX). Proved in Coq by an age-based invariant on the monotonic deque; model tied to the Rust filters (both build profiles, states injected at the end of the counter range) by differential execution evaluated in Coq.",
+    "level_note": "Trusted: Coq kernel/vm_compute; hand-written Model/Bounds.v validated on explored cases; bounded-list model of circular_buffer; well-formedness predicate WF (Proofs/Bounds.v) as the reading of 'injected state'.",
 }
 
 NOT_YET = {}
